@@ -72,20 +72,42 @@ def typestate(fn: Function, rep: Report, rule: str = "R8.1") -> int:
     cfg = CFG(fn.node)
     LO, HI = -2, 3
 
-    def transfer(node, v, label):
+    def transfer(node, state, label):
+        # state = (open enters, known boolean flags): a local bound to a literal True/False and later tested bare decides its branch
+        v, flags = state
+        a = node.ast
+        if node.kind == "test" and a is not None and label in ("true", "false"):
+            t, sense = a, label == "true"
+            while isinstance(t, ast.UnaryOp) and isinstance(t.op, ast.Not):
+                t, sense = t.operand, not sense
+            if isinstance(t, ast.Name) and t.id in dict(flags):
+                return ((v, flags),) if dict(flags)[t.id] == sense else ()
+            return ((v, flags),)
+        if node.kind == "stmt" and isinstance(a, (ast.Assign, ast.AnnAssign, ast.AugAssign)):
+            tgs = a.targets if isinstance(a, ast.Assign) else [a.target]
+            names = {x.id for t in tgs for x in ast.walk(t) if isinstance(x, ast.Name)}
+            if names:
+                flags = frozenset((k, b) for k, b in flags if k not in names)
+                if isinstance(a, (ast.Assign, ast.AnnAssign)) and len(names) == 1 and isinstance(getattr(a, "value", None), ast.Constant) and isinstance(a.value.value, bool):
+                    flags = flags | {(next(iter(names)), a.value.value)}
         evs = _events(node.ast)
         if not evs:
-            return (v,)
+            return ((v, flags),)
         post = v
         for k, _ in evs:
             post = post + 1 if k == "enter" else post - 1
         post = max(LO, min(HI, post))
         if label == "exc":
             # the exception may be raised before or after the tracker call took effect
-            return (v, post)
-        return (post,)
+            return ((v, flags), (post, flags))
+        return ((post, flags),)
 
-    states, wit = forward(cfg, 0, transfer)
+    states_f, wit_f = forward(cfg, (0, frozenset()), transfer)
+    # project the flag component away for reporting (first witness per projected state)
+    states = {k: {x[0] for x in vs} for k, vs in states_f.items()}
+    wit = {}
+    for (nid, st_), pred in wit_f.items():
+        wit.setdefault((nid, st_[0]), None if pred is None else (pred[0], pred[1][0]))
     sub = f"{fn.module.relpath}:{fn.qualname}"
     n_obl = 0
     arg_texts: Set[str] = set()
@@ -197,8 +219,28 @@ def run(repo: Repo, rep: Report, tier: str) -> None:
     rep.count("R8.1:functions_using_tracker", [f.fq for f in subjects])
     gate = repo.func("core.parsing.schema_parser:_parse_schema")
     rep.require(any(f is gate for f in subjects), "R8.1: _parse_schema no longer calls the cycle tracker (anchor vanished)")
+    # A private helper (or context manager) of the same module that performs part of the bookkeeping is analysed *inside* its callers:
+    # the caller is examined with that helper written out (sa/flatten.py); the helper on its own is then not a subject - its enter/exit
+    # calls are only half of a pair.
+    from sa.flatten import flatten as _fl81
+
+    helper_names = {f.name for f in subjects}
+    flat = {f.fq: _fl81(f, select=lambda h: h.name in helper_names) for f in subjects}
+    inlined_into: Dict[str, List[str]] = {}
+    for f in subjects:
+        if flat[f.fq] is f:
+            continue
+        before = {(c.func.id if isinstance(c.func, ast.Name) else c.func.attr if isinstance(c.func, ast.Attribute) else None) for c in calls_in(f.node)}
+        after = {(c.func.id if isinstance(c.func, ast.Name) else c.func.attr if isinstance(c.func, ast.Attribute) else None) for c in calls_in(flat[f.fq].node)}
+        for hn in (before - after) & helper_names:
+            inlined_into.setdefault(hn, []).append(f.qualname)
     for fn in subjects:
-        typestate(fn, rep)
+        callers = [c for g in repo.all_functions() if g.module is fn.module and g is not fn for c in calls_in(g.node)
+                   if (isinstance(c.func, ast.Name) and c.func.id == fn.name) or (isinstance(c.func, ast.Attribute) and c.func.attr == fn.name)]
+        if fn.name in inlined_into and callers and fn is not gate:
+            rep.ok("R8.1", f"{fn.module.relpath}:{fn.qualname}", f"bookkeeping helper: analysed written out inside {sorted(set(inlined_into[fn.name]))}", fn.loc())
+            continue
+        typestate(flat[fn.fq], rep)
 
     # wrappers in ParsingContext delegate on every path
     ctx_cls = repo.cls("core.parsing.context:ParsingContext")
@@ -264,7 +306,8 @@ def run(repo: Repo, rep: Report, tier: str) -> None:
             owner_unit = fn.module.name.endswith(UCD) or (fn.cls is not None and fn.cls.name == "ParsingContext" and fn.module.name.endswith(CTX))
             if fn.fq in allowed_writers or owner_unit:
                 rep.ok("R8.2", sub, f"allowed writer: {allowed_writers.get(fn.fq, 'part of the tracker module / ParsingContext')}", fn.loc(what))
-            elif fn is gate and tgt_attr in ("schema_states", "schema_stack") and "schema_name" in norm(what):
+            elif (fn is gate or (fn.module is gate.module and gate.qualname in inlined_into.get(fn.name, []))) and tgt_attr in ("schema_states", "schema_stack") \
+                    and any(isinstance(x, ast.Name) and x.id in fn.params for x in ast.walk(what.targets[0].slice if isinstance(what, ast.Assign) and isinstance(what.targets[0], ast.Subscript) else what)):
                 rep.ok("R8.2", sub, "re-parse branch of the gate, keyed by its own name argument (depth is covered by R8.1)", fn.loc(what))
             else:
                 rep.violation("R8.2", sub, f"{fn.fq}|writes|{tgt_attr}|{norm(what)}",
